@@ -97,6 +97,15 @@ PROPS = {
         "rule": "programs dense in names, the eight DEFINE instructions, NAME.QUOTE and CODE.DEFINITION (names drawn from a small pool so that define / use / quote / redefine interleave), single-stepped with every transition validated against the model and the name-step / definition statements; DEFINE, NAME.QUOTE, CODE.DEFINITION by NAME on generated states with bound and unbound names; non-trivial = the state changed",
         "assumptions": [],
     },
+    "C08": {
+        "scenarios": lambda tier, q: [
+            {"name": "codeops", "args": [exact(q("scope C08"))]},
+            {"name": "exec", "args": [exact(q("scope C08")), "150" if tier == "quick" else "1500"]},
+        ],
+        "signature": sig_exec,
+        "rule": "the 19 CODE list-surgery instructions by NAME on tree-rich states: top CODE item of depth <= 5 with every atom kind and nested lists before atoms, second / third items drawn as random points of the top item (so that POSITION / CONTAINS / CONTAINER / SUBST / MEMBER find matches) or at random, index in [-2S, 2S] plus i32::MIN/MAX; SIZE/EXTRACT/POSITION/CONTAINS/MEMBER/CONTAINER/... compared with the points-based statements, INSERT with the metamorphic INSERT->EXTRACT relation; non-trivial = the state changed",
+        "assumptions": ["items are compared structurally; floats by IEEE ==, so a NaN-carrying item never matches (stated in equals_iff)"],
+    },
     "C01": {
         "scenarios": lambda tier, q: [
             {"name": "exec", "args": ["*"]},
